@@ -199,6 +199,24 @@ pub struct Opts {
 
 static CURRENT: Mutex<Vec<(u64, Instant)>> = Mutex::new(Vec::new());
 
+thread_local! {
+    static WORKER: std::cell::Cell<usize> = const { std::cell::Cell::new(usize::MAX) };
+}
+
+/// Called by components whose single run consists of many independent executions (C04's sweep
+/// over fault offsets): the watchdog's "no progress" clock restarts, so that it measures one
+/// execution and not the whole sweep.
+pub fn heartbeat() {
+    let w = WORKER.with(|c| c.get());
+    if w != usize::MAX {
+        if let Ok(mut cur) = CURRENT.lock() {
+            if let Some(e) = cur.get_mut(w) {
+                e.1 = Instant::now();
+            }
+        }
+    }
+}
+
 /// Runs the seeded search for one property in this process.
 pub fn search<P: Prop>(p: &P, opts: &Opts) -> Outcome<P::Case> {
     let total = opts.runs_override.unwrap_or_else(|| p.runs(opts.tier));
@@ -258,6 +276,7 @@ pub fn search<P: Prop>(p: &P, opts: &Opts) -> Outcome<P::Case> {
             let tag = &tag;
             handles.push(scope.spawn(move || {
                 crate::crash::install_hook();
+                WORKER.with(|c| c.set(w));
                 let mut st = Stats::default();
                 let mut found = vec![];
                 let mut nondet = vec![];
